@@ -114,6 +114,16 @@ impl ShellEnvironment {
         }
     }
 
+    /// Sets whether variables are marked for export when they are assigned
+    /// (the `allexport` option).
+    ///
+    /// # Arguments
+    ///
+    /// * `value` - Whether or not to export variables on modification.
+    pub const fn set_export_variables_on_modification(&mut self, value: bool) {
+        self.export_variables_on_modification = value;
+    }
+
     /// Pushes a new scope of the given type onto the environment's scope stack.
     ///
     /// # Arguments
@@ -506,7 +516,10 @@ impl ShellEnvironment {
     ) -> Result<(), error::Error> {
         let name = name.into();
 
-        let auto_export = self.export_variables_on_modification;
+        // Under `allexport` a scalar assignment marks the variable for export; assigning a
+        // whole array does not.
+        let auto_export = self.export_variables_on_modification
+            && matches!(value, variables::ShellValueLiteral::Scalar(_));
         if let Some(var) = self.get_mut_using_policy(&name, lookup_policy) {
             var.assign(value, false)?;
             if auto_export {
@@ -574,13 +587,9 @@ impl ShellEnvironment {
     pub fn add<N: Into<String>>(
         &mut self,
         name: N,
-        mut var: ShellVariable,
+        var: ShellVariable,
         target_scope: EnvironmentScope,
     ) -> Result<(), error::Error> {
-        if self.export_variables_on_modification {
-            var.export();
-        }
-
         for (scope_type, map) in self.scopes.iter_mut().rev() {
             if *scope_type == target_scope {
                 let prev_var = map.set(name, var);
